@@ -160,6 +160,9 @@ func (se *strEval) eval(v ssa.Value, env map[*ssa.Parameter][]string, depth int)
 				}
 			}
 		}
+	case *ssa.Index:
+		// an element of an array value (`for _, s := range [...]string{...}` ranges over a copy of the array)
+		return se.elemsOf(x.X, env, depth)
 	case *ssa.Extract:
 		if call, ok := x.Tuple.(*ssa.Call); ok {
 			if sc := call.Call.StaticCallee(); sc != nil && fnInModule(sc) && sc.Blocks != nil && sc.Signature.Recv() == nil {
@@ -254,6 +257,10 @@ func (se *strEval) elemsOf(v ssa.Value, env map[*ssa.Parameter][]string, depth i
 			out = append(out, se.elemsOf(e, env, depth+1)...)
 		}
 		return uniq(out)
+	case *ssa.UnOp:
+		if al, ok := x.X.(*ssa.Alloc); ok && x.Op == token.MUL {
+			return se.elemsOf(al, env, depth+1) // the value of a local array
+		}
 	}
 	return []string{holeOf(v)}
 }
